@@ -1,13 +1,12 @@
-\* as-built (pinned tree): EXPECTED TO FAIL StatusIsCount / NeverCrashes
-CONSTANTS MaxDev = 2  SampleDev = 9  MaxPaths = 2  MaxModels = 2  MaxOpts = 2
+\* as-built switches (pinned tree): PROG log with the expected (declarative) and the as-built status
+\* family: every invocation within 2 changes of the plain one, plus the share C26_PART/C26_NPARTS of those with 3 changes
+CONSTANTS MaxDev = 2  SampleDev = 3  MaxPaths = 2  MaxModels = 2  MaxOpts = 2
           CliCountsTranslateFailures = FALSE  CliCatchesTranslateErrors = FALSE  CliCountsMissingModelFile = FALSE
-          Emit = FALSE  NParts <- NPartsEnv  Part <- PartEnv
+          Emit = TRUE  NParts <- NPartsEnv  Part <- PartEnv
 INIT Init
 NEXT Next
-INVARIANT StatusIsCount
-INVARIANT NeverCrashes
+INVARIANT DeviationsExplainAll
+ACTION_CONSTRAINT Log
 INVARIANT NoWorkAfterUsageError
-INVARIANT SumOfSingles
 PROPERTY ErrorsMonotone
-PROPERTY PerModelIndependent
 CHECK_DEADLOCK FALSE
